@@ -155,6 +155,11 @@ Definition timelocked (r : Z) : Z := 100 + r.
 Definition has_role (roles : list (Z * Z)) (p r : Z) : bool :=
   existsb (fun x => (fst x =? p) && (snd x =? r)) roles.
 
+(* an address is a member of the store's role table while it holds at least one role; `has_role` on a
+   non-member is an error (PermissionDenied), not `false` *)
+Definition is_member (roles : list (Z * Z)) (p : Z) : bool :=
+  existsb (fun x => fst x =? p) roles.
+
 Record buffer := mkBuf {
   b_open : bool;
   b_role : Z;            (* executor role *)
@@ -216,15 +221,12 @@ Definition step (w : world) (o : op) : res world :=
       Ok (mkWorld (w_bufs w ++ [mkBuf true role ix false 0 0 0]) (w_delay w) (w_roles w) (w_now w)
                   (w_approvals w) (w_execs w) ((id, ix) :: w_created w))
   | TApprove caller role id =>
-      (* account validation order of ApproveInstruction: the executor constraints (role_name == role) come
-         before the instruction buffer account is loaded; the role check by CPI is inside the handler *)
-      match get w id with
-      | None => Err 5
-      | Some b =>
-      (* Anchor checks `seeds` before `has_one` / `constraint`: a role other than the executor's fails the
-         seeds constraint (the explicit `constraint = role_name == role @ InvalidArgument` cannot fire) *)
+      (* Anchor first deserialises every account (a closed buffer fails here), then evaluates the constraints,
+         then the handler runs (the role check by CPI is inside the handler) *)
+      b <-- live w id ;;
+      (* `seeds` is checked before `has_one` / `constraint`: a role other than the executor's fails the seeds
+         constraint (the explicit `constraint = role_name == role @ InvalidArgument` cannot fire) *)
       if negb (b_role b =? role) then Err 6 else
-      if negb (b_open b) then Err 5 else
       if negb (has_role (w_roles w) caller (timelocked role)) then Err 3 else
       (* InstructionHeader::approve *)
       if b_approved b then Err 2 else
@@ -234,7 +236,6 @@ Definition step (w : world) (o : op) : res world :=
       Ok (mkWorld (set_nth (w_bufs w) (Z.to_nat id) b') (w_delay w) (w_roles w) (w_now w)
                   (mkApproval id caller (w_now w) (w_delay w) (has_role (w_roles w) caller (timelocked (b_role b)))
                    :: w_approvals w) (w_execs w) (w_created w))
-      end
   | TCancel caller id =>
       (* accounts are validated (the buffer must exist) before the access control runs *)
       b <-- live w id ;;
@@ -245,6 +246,7 @@ Definition step (w : world) (o : op) : res world :=
       b <-- live w id ;;
       if negb (has_role (w_roles w) caller ROLE_KEEPER) then Err 3 else
       if b_approver b =? 0 then Err 2 else
+      if negb (is_member (w_roles w) (b_approver b)) then Err 3 else
       if negb (has_role (w_roles w) (b_approver b) (timelocked (b_role b))) then Err 2 else
       if negb (is_executable (b_approved b) (b_approved_at b) (w_delay w) (w_now w)) then Err 2 else
       let b' := mkBuf false (b_role b) (b_ix b) (b_approved b) (b_approver b) (b_approved_at b) (b_napprove b) in
